@@ -127,6 +127,11 @@ macro_rules! big_type {
                 Self::new(v)
             }
         }
+        impl rustradio::sigmf::Type for $name {
+            fn type_string() -> &'static str {
+                "ru64"
+            }
+        }
         impl BigT for $name {
             fn val(&self) -> u64 {
                 self.v
